@@ -10,7 +10,7 @@ import (
 func init() { register("C12", propC12) }
 
 func propC12(c *Ctx) {
-	c.Explanation = "Timing (about 3 s), races between timers and replies beyond mutual exclusion, and what the cache contains after an arbitrary history are NOT decided. Decided are the structural necessary conditions: (T1) arp.HandlePacket answers a request only after CheckLocalAddress(target) != 0, with op = reply, sender hardware = the route's local link address, sender protocol = the request's target, target hardware/protocol = the request's sender fields, written on the inbound route (whose remote link address NIC.DeliverNetworkPacket set to the frame's source); it learns (sender protocol -> sender hardware) from every reply and from exactly those requests it answers; requests are broadcast (route with ff:ff:ff:ff:ff:ff) and carry the link endpoint's own address, the local address and the wanted address in the right fields; the IPv6 neighbour solicitation/advertisement code follows the same table (target = bytes 8..24, CheckLocalAddress, solicited|override flags, target link-address option, source address = target, learning). (T2) typestate: changeState is called only from four sites, each requesting a transition that changeState's own switch allows from every entry state possible at that site (state(): to expired only when not expired; checkLinkRequest: to failed only under state == incomplete; add: to ready only for an incomplete or freshly made entry; makeAndAddEntry: to expired, allowed from everywhere); wakers are asserted and done is closed exactly when the entry leaves incomplete; the state word is written only there and by the slot reset. (T3) cache map, ring index, slots and every entry field are touched only with linkAddrCache.mu held; ring reuse: the old key is deleted exactly when it still maps to the recycled slot, BEFORE the slot is overwritten, and the new key is mapped to the slot after it was filled; next advances by one modulo the ring size; the index stays inside the ring. (T4) constants: 3 attempts, 1 s timeout, 1 min age limit, 512 slots, passed to the cache in that order; failed exactly when attempt+1 >= attempts while still incomplete; a request is sent at the top of every iteration and the loop ends on done or when checkLinkRequest says stop. (T5) get: static address first; ready -> the entry's link address; failed -> ErrNoLinkAddress; incomplete -> register the waker and ErrWouldBlock with the entry's done channel; expired or absent -> (no resolver: ErrNoLinkAddress) new incomplete entry with empty link address, waker registered, resolution goroutine started with that entry's done, ErrWouldBlock; state() expires exactly by time.Now().After(expiration). (T6) nothing is sent before resolution: sendSynTCP in handshake.execute and sendUDP in udp Write are reached only when the route needs no resolution or Resolve/resolveRoute returned nil; Route.Resolve stores the learned address only on success. (T7) whether resolution is required at all: IsResolutionRequired is exactly linkCache != nil && RemoteLinkAddress == \"\", and addAddressLocked sets linkCache for every endpoint reference (permanent, replaced or temporary) on a link that needs resolution, under exactly the capability and resolver tests, and nowhere else. NOT decided: the 3 s bound, timers racing with replies, cache overflow behaviour beyond T3, RemoveWaker's inverted NIC test (observation)."
+	c.Explanation = "Timing (about 3 s), races between timers and replies beyond mutual exclusion, and what the cache contains after an arbitrary history are NOT decided. Decided are the structural necessary conditions: (T1) arp.HandlePacket answers a request only after CheckLocalAddress(target) != 0, with op = reply, sender hardware = the route's local link address, sender protocol = the request's target, target hardware/protocol = the request's sender fields, written on the inbound route (whose remote link address NIC.DeliverNetworkPacket set to the frame's source); it learns (sender protocol -> sender hardware) from every reply and from exactly those requests it answers; requests are broadcast (route with ff:ff:ff:ff:ff:ff) and carry the link endpoint's own address, the local address and the wanted address in the right fields; the IPv6 neighbour solicitation/advertisement code follows the same table (target = bytes 8..24, CheckLocalAddress, solicited|override flags, target link-address option, source address = target, learning). (T2) typestate: changeState is called only from four sites, each requesting a transition that changeState's own switch allows from every entry state possible at that site (state(): to expired only when not expired; checkLinkRequest: to failed only under state == incomplete; add: to ready only for an incomplete or freshly made entry; makeAndAddEntry: to expired, allowed from everywhere); wakers are asserted and done is closed exactly when the entry leaves incomplete; the state word is written only there and by the slot reset. (T3) cache map, ring index, slots and every entry field are touched only with linkAddrCache.mu held; ring reuse: the old key is deleted exactly when it still maps to the recycled slot, BEFORE the slot is overwritten, and the new key is mapped to the slot after it was filled; next advances by one modulo the ring size; the index stays inside the ring. (T4) constants: 3 attempts, 1 s timeout, 1 min age limit, 512 slots, passed to the cache in that order; failed exactly when attempt+1 >= attempts while still incomplete; a request is sent at the top of every iteration and the loop ends on done or when checkLinkRequest says stop. (T5) get: static address first; ready -> the entry's link address; failed -> ErrNoLinkAddress; incomplete -> register the waker and ErrWouldBlock with the entry's done channel; expired or absent -> (no resolver: ErrNoLinkAddress) new incomplete entry with empty link address, waker registered, resolution goroutine started with that entry's done, ErrWouldBlock; state() expires exactly by time.Now().After(expiration). (T6) nothing is sent before resolution: sendSynTCP in handshake.execute and sendUDP in udp Write are reached only when the route needs no resolution or Resolve/resolveRoute returned nil; Route.Resolve stores the learned address only on success. (T7) whether resolution is required at all: IsResolutionRequired is exactly linkCache != nil && RemoteLinkAddress == \"\", and addAddressLocked sets linkCache for every endpoint reference (permanent, replaced or temporary) on a link that needs resolution, under exactly the capability and resolver tests, and nowhere else. T5 also tables ARP's static mapping (only the limited broadcast). NOT decided: the 3 s bound, timers racing with replies, cache overflow behaviour beyond T3, RemoveWaker's inverted NIC test (observation)."
 
 	t1 := c.Rule("T1", "K1 guards + K5 field provenance", "ARP/NDP reply and learning tables", 30)
 	if fn := c.Fn(t1, "(*arp.endpoint).HandlePacket"); fn != nil {
@@ -88,98 +88,7 @@ func propC12(c *Ctx) {
 	}
 
 	t2 := c.Rule("T2", "typestate (K9 + K1)", "entry state machine", 14)
-	cs := "(*stack.linkAddrEntry).changeState"
-	if fn := c.Fn(t2, cs); fn != nil {
-		leave := []string{"!($0.s == $1)", "($0.s == 0)"}
-		c.CheckSites(t2, fn, []SiteSpec{
-			{Kind: "return", Guards: []string{"($0.s == $1)"}, Exact: true, N: 1, Why: "same state: no-op"},
-			{Kind: "call", Target: "(*sleep.Waker).Assert", Args: []string{"next(range($0.wakers))#1"}, Guards: append([]string{"next(range($0.wakers))#0"}, leave...), Exact: true, N: 1, Why: "every registered waker is asserted exactly when the entry leaves incomplete"},
-			{Kind: "store", Target: "stack.linkAddrEntry.wakers", Args: []string{"$0", "nil"}, Guards: append([]string{"!next(range($0.wakers))#0"}, leave...), Exact: true, N: 1, Why: "... and forgotten"},
-			{Kind: "call", Target: "builtin:close", Args: []string{"$0.done"}, Guards: append([]string{"!($0.done == nil)", "!next(range($0.wakers))#0"}, leave...), Exact: true, N: 1, Why: "... and the resolution goroutine is told to stop"},
-			{Kind: "store", Target: "stack.linkAddrEntry.s", Args: []string{"$0", "$1"}, Guards: []string{"!($0.s == $1)"}, Exact: true, N: 1, Why: "the new state is stored on every non-panicking path"},
-			{Kind: "return", Guards: []string{"!($0.s == $1)"}, Exact: true, N: 1, Why: "end"},
-		})
-		// the transition relation: panics are guarded exactly by the forbidden pairs
-		var lits [][]string
-		for _, s := range Sites(fn) {
-			if s.Kind == "panic" {
-				lits = append(lits, s.Guards)
-			}
-		}
-		want := map[string]bool{
-			"!($0.s == $1) && !($0.s == 0) && !($0.s == 1) && !($0.s == 2) && !($0.s == 3)": true, // unknown state
-			"!($0.s == $1) && !($0.s == 0) && !($0.s == 1) && !($0.s == 2) && ($0.s == 3)":  true, // from expired
-			"!($1 == 3) && !($0.s == $1) && !($0.s == 0)":                                   true, // from ready/failed to non-expired
-		}
-		got := map[string]bool{}
-		for _, l := range lits {
-			got[joinSorted(l)] = true
-		}
-		wantN := map[string]bool{}
-		for k := range want {
-			wantN[joinSorted(splitAnd(k))] = true
-		}
-		okRel := len(got) == len(wantN)
-		for k := range wantN {
-			okRel = okRel && got[k]
-		}
-		c.Check(okRel, t2, cs+"/transition-relation", c.P.Pos(fn.Pos()), "allowed: incomplete->any, ready/failed->expired; forbidden pairs panic", "changeState's transition relation changed; panics now guarded by: "+fmtKeys(got))
-	}
-	c.OnlyIn(t2, "call of changeState", c.CallSites(Is(cs)), "(*stack.linkAddrEntry).state", "(*stack.linkAddrCache).add", "(*stack.linkAddrCache).makeAndAddEntry", "(*stack.linkAddrCache).checkLinkRequest")
-	c.OnlyIn(t2, "store to linkAddrEntry.s", c.FieldStores("stack.linkAddrEntry", "s"), cs)
-	if fn := c.Fn(t2, "(*stack.linkAddrEntry).state"); fn != nil {
-		c.CheckSites(t2, fn, []SiteSpec{
-			{Kind: "call", Target: cs, Args: []string{"$0", "3"}, Guards: []string{"!($0.s == 3)", "time.Time.After(time.Now(), $0.expiration)"}, Exact: true, N: 1, Why: "to expired, from a non-expired state (allowed from incomplete/ready/failed), exactly when now is after the expiration"},
-		})
-		// every return hands back the entry's current state word (whatever the
-		// number of return statements: early return <-> fall-through)
-		nr := 0
-		for _, st := range Sites(fn) {
-			if st.Kind == "return" {
-				nr++
-				ok := len(st.Args) == 1 && (st.Args[0] == "$0.s" || strings.HasPrefix(st.Args[0], "$0.s@"))
-				c.Check(ok, t2, FuncName(fn)+"/returns-current-state:"+strings.Join(st.Args, ","), c.pos(st.Instr), "returns the (possibly just expired) state", "state() returns something other than the entry's state word")
-			}
-		}
-		c.Check(nr >= 1, t2, FuncName(fn)+"/has-return", c.P.Pos(fn.Pos()), "returns", "no return found")
-	}
-	if fn := c.Fn(t2, "(*stack.linkAddrCache).checkLinkRequest"); fn != nil {
-		st := "(*stack.linkAddrEntry).state($0.cache[$1]#0)"
-		inc := []string{"!(" + st + " == 1)", "!(" + st + " == 2)", "!(" + st + " == 3)", "$0.cache[$1]#1", "(" + st + " == 0)"}
-		c.CheckSites(t2, fn, []SiteSpec{
-			{Kind: "call", Target: cs, Args: []string{"$0.cache[$1]#0", "2"}, Guards: append([]string{"!(($2 + 1) < $0.resolutionAttempts)"}, inc...), Exact: true, N: 1, Why: "to failed only from incomplete, exactly when attempt+1 >= resolutionAttempts"},
-			{Kind: "return", Args: []string{"true"}, Guards: []string{"!$0.cache[$1]#1"}, Exact: true, N: 1, Why: "entry gone: stop"},
-			{Kind: "return", Args: []string{"true"}, Guards: []string{"$0.cache[$1]#1"}, Exact: true, N: 1, Why: "ready/failed/expired: stop"},
-			{Kind: "return", Args: []string{"true"}, Guards: append([]string{"!(($2 + 1) < $0.resolutionAttempts)"}, inc...), Exact: true, N: 1, Why: "budget used up: failed, stop"},
-			{Kind: "return", Args: []string{"false"}, Guards: append([]string{"(($2 + 1) < $0.resolutionAttempts)"}, inc...), Exact: true, N: 1, Why: "still incomplete with budget left: retry"},
-		})
-	}
-	if fn := c.Fn(t2, "(*stack.linkAddrCache).add"); fn != nil {
-		st := "(*stack.linkAddrEntry).state($0.cache[$1]#0)"
-		c.CheckSites(t2, fn, []SiteSpec{
-			{Kind: "call", Target: cs, Args: []string{"phi{$0.cache[$1]#0 | (*stack.linkAddrCache).makeAndAddEntry($0, $1, $2)}", "1"}, Guards: []string{}, Exact: true, N: 1, Why: "to ready: for the cached entry (only on the state == incomplete path, see the stores) or a freshly made, incomplete one"},
-			{Kind: "store", Target: "stack.linkAddrEntry.linkAddr", Args: []string{"$0.cache[$1]#0", "$2"}, Guards: []string{"$0.cache[$1]#1", "(" + st + " == 0)"}, Exact: true, N: 1, Why: "an incomplete entry takes the learned address in place"},
-			{Kind: "call", Target: "(*stack.linkAddrCache).makeAndAddEntry", Args: []string{"$0", "$1", "$2"}, Guards: []string{"!(" + st + " == 0)", "$0.cache[$1]#1"}, Exact: true, N: 1, Why: "ready with another address / failed / expired: a new slot (overwrite with the new link address)"},
-			{Kind: "call", Target: "(*stack.linkAddrCache).makeAndAddEntry", Args: []string{"$0", "$1", "$2"}, Guards: []string{"!$0.cache[$1]#1"}, Exact: true, N: 1, Why: "unknown neighbour: a new slot"},
-			{Kind: "return", Guards: []string{"!(" + st + " == 3)", "$0.cache[$1]#1", "($0.cache[$1]#0.linkAddr == $2)"}, Exact: true, N: 1, Why: "same mapping, not expired: nothing to do (expiry is not refreshed)"},
-			{Kind: "return", Guards: []string{}, Exact: true, N: 1, Why: "end"},
-		})
-		// the phi's cache operand flows in only from the state == incomplete block
-		for _, ci := range c.Calls(fn, Is(cs), false) {
-			if phi, ok := ci.Common().Args[0].(*ssa.Phi); ok {
-				for i, e := range phi.Edges {
-					if _, isCall := e.(*ssa.Call); isCall {
-						continue
-					}
-					pred := phi.Block().Preds[i]
-					ok := GuardedBy(fn, pred, AtomIs(true, Exactly("("+st+" == 0)")))
-					c.Check(ok, t2, FuncName(fn)+"/ready-from-cached-only-if-incomplete", c.pos(ci), "the cached entry reaches changeState(ready) only from the incomplete arm", "a cached entry that is not incomplete can reach changeState(ready): invalid transition (panic) or a stale entry revived")
-				}
-			} else {
-				c.Broken(t2, FuncName(fn)+"/ready-from-cached-only-if-incomplete", "receiver is not a phi any more")
-			}
-		}
-	}
+	linkEntryTypestateRule(c, t2)
 
 	t3 := c.Rule("T3", "K4 lockset + K7 coupled updates + K2 order", "cache state under the lock; ring reuse", 20)
 	c.Locks().CheckGuards(c, t3, guardsLinkCache, nil)
@@ -237,6 +146,10 @@ func propC12(c *Ctx) {
 			{Kind: "return", Args: []string{"\"\"", fresh + ".done", "tcpip.ErrWouldBlock"}, Guards: []string{"!($2 == nil)"}, Exact: true, N: 1, Why: "would block"},
 		})
 	}
+
+	c.Returns(t5, "(*arp.protocol).ResolveStaticAddress",
+		RetSpec{Args: []string{"arp.broadcastMAC", "true"}, Guards: []string{"(\"\\xff\\xff\\xff\\xff\" == $1)"}, Why: "only the limited broadcast address 255.255.255.255 has a static mapping (to the link broadcast address)"},
+		RetSpec{Args: []string{"\"\"", "false"}, Guards: []string{"!(\"\\xff\\xff\\xff\\xff\" == $1)"}, Why: "every other address goes through the neighbour cache"})
 
 	t6 := c.Rule("T6", "K1 edge-cut guards", "no transmission before resolution", 4)
 	if fn := c.Fn(t6, "(*tcp.handshake).execute"); fn != nil {
@@ -336,5 +249,105 @@ func linkCacheRingRule(c *Ctx, t3 string) {
 		})
 		an := NewAbsint(c.P)
 		c.boundsObligations(t3, an, fn)
+	}
+}
+
+// linkEntryTypestateRule: the neighbour-cache entry state machine: changeState's
+// transition relation (forbidden pairs panic), its only call sites, and that
+// each call site requests a transition allowed from every state possible there.
+// Shared by C12 (T2) and C07 (P1-ts: this is the argument why the two
+// changeState panics cannot be reached by inbound frames).
+func linkEntryTypestateRule(c *Ctx, t2 string) {
+	cs := "(*stack.linkAddrEntry).changeState"
+	if fn := c.Fn(t2, cs); fn != nil {
+		leave := []string{"!($0.s == $1)", "($0.s == 0)"}
+		c.CheckSites(t2, fn, []SiteSpec{
+			{Kind: "return", Guards: []string{"($0.s == $1)"}, Exact: true, N: 1, Why: "same state: no-op"},
+			{Kind: "call", Target: "(*sleep.Waker).Assert", Args: []string{"next(range($0.wakers))#1"}, Guards: append([]string{"next(range($0.wakers))#0"}, leave...), Exact: true, N: 1, Why: "every registered waker is asserted exactly when the entry leaves incomplete"},
+			{Kind: "store", Target: "stack.linkAddrEntry.wakers", Args: []string{"$0", "nil"}, Guards: append([]string{"!next(range($0.wakers))#0"}, leave...), Exact: true, N: 1, Why: "... and forgotten"},
+			{Kind: "call", Target: "builtin:close", Args: []string{"$0.done"}, Guards: append([]string{"!($0.done == nil)", "!next(range($0.wakers))#0"}, leave...), Exact: true, N: 1, Why: "... and the resolution goroutine is told to stop"},
+			{Kind: "store", Target: "stack.linkAddrEntry.s", Args: []string{"$0", "$1"}, Guards: []string{"!($0.s == $1)"}, Exact: true, N: 1, Why: "the new state is stored on every non-panicking path"},
+			{Kind: "return", Guards: []string{"!($0.s == $1)"}, Exact: true, N: 1, Why: "end"},
+		})
+		// the transition relation: panics are guarded exactly by the forbidden pairs
+		var lits [][]string
+		for _, s := range Sites(fn) {
+			if s.Kind == "panic" {
+				lits = append(lits, s.Guards)
+			}
+		}
+		want := map[string]bool{
+			"!($0.s == $1) && !($0.s == 0) && !($0.s == 1) && !($0.s == 2) && !($0.s == 3)": true, // unknown state
+			"!($0.s == $1) && !($0.s == 0) && !($0.s == 1) && !($0.s == 2) && ($0.s == 3)":  true, // from expired
+			"!($1 == 3) && !($0.s == $1) && !($0.s == 0)":                                   true, // from ready/failed to non-expired
+		}
+		got := map[string]bool{}
+		for _, l := range lits {
+			got[joinSorted(l)] = true
+		}
+		wantN := map[string]bool{}
+		for k := range want {
+			wantN[joinSorted(splitAnd(k))] = true
+		}
+		okRel := len(got) == len(wantN)
+		for k := range wantN {
+			okRel = okRel && got[k]
+		}
+		c.Check(okRel, t2, cs+"/transition-relation", c.P.Pos(fn.Pos()), "allowed: incomplete->any, ready/failed->expired; forbidden pairs panic", "changeState's transition relation changed; panics now guarded by: "+fmtKeys(got))
+	}
+	c.OnlyIn(t2, "call of changeState", c.CallSites(Is(cs)), "(*stack.linkAddrEntry).state", "(*stack.linkAddrCache).add", "(*stack.linkAddrCache).makeAndAddEntry", "(*stack.linkAddrCache).checkLinkRequest")
+	c.OnlyIn(t2, "store to linkAddrEntry.s", c.FieldStores("stack.linkAddrEntry", "s"), cs)
+	if fn := c.Fn(t2, "(*stack.linkAddrEntry).state"); fn != nil {
+		c.CheckSites(t2, fn, []SiteSpec{
+			{Kind: "call", Target: cs, Args: []string{"$0", "3"}, Guards: []string{"!($0.s == 3)", "time.Time.After(time.Now(), $0.expiration)"}, Exact: true, N: 1, Why: "to expired, from a non-expired state (allowed from incomplete/ready/failed), exactly when now is after the expiration"},
+		})
+		// every return hands back the entry's current state word (whatever the
+		// number of return statements: early return <-> fall-through)
+		nr := 0
+		for _, st := range Sites(fn) {
+			if st.Kind == "return" {
+				nr++
+				ok := len(st.Args) == 1 && (st.Args[0] == "$0.s" || strings.HasPrefix(st.Args[0], "$0.s@"))
+				c.Check(ok, t2, FuncName(fn)+"/returns-current-state:"+strings.Join(st.Args, ","), c.pos(st.Instr), "returns the (possibly just expired) state", "state() returns something other than the entry's state word")
+			}
+		}
+		c.Check(nr >= 1, t2, FuncName(fn)+"/has-return", c.P.Pos(fn.Pos()), "returns", "no return found")
+	}
+	if fn := c.Fn(t2, "(*stack.linkAddrCache).checkLinkRequest"); fn != nil {
+		st := "(*stack.linkAddrEntry).state($0.cache[$1]#0)"
+		inc := []string{"!(" + st + " == 1)", "!(" + st + " == 2)", "!(" + st + " == 3)", "$0.cache[$1]#1", "(" + st + " == 0)"}
+		c.CheckSites(t2, fn, []SiteSpec{
+			{Kind: "call", Target: cs, Args: []string{"$0.cache[$1]#0", "2"}, Guards: append([]string{"!(($2 + 1) < $0.resolutionAttempts)"}, inc...), Exact: true, N: 1, Why: "to failed only from incomplete, exactly when attempt+1 >= resolutionAttempts"},
+			{Kind: "return", Args: []string{"true"}, Guards: []string{"!$0.cache[$1]#1"}, Exact: true, N: 1, Why: "entry gone: stop"},
+			{Kind: "return", Args: []string{"true"}, Guards: []string{"$0.cache[$1]#1"}, Exact: true, N: 1, Why: "ready/failed/expired: stop"},
+			{Kind: "return", Args: []string{"true"}, Guards: append([]string{"!(($2 + 1) < $0.resolutionAttempts)"}, inc...), Exact: true, N: 1, Why: "budget used up: failed, stop"},
+			{Kind: "return", Args: []string{"false"}, Guards: append([]string{"(($2 + 1) < $0.resolutionAttempts)"}, inc...), Exact: true, N: 1, Why: "still incomplete with budget left: retry"},
+		})
+	}
+	if fn := c.Fn(t2, "(*stack.linkAddrCache).add"); fn != nil {
+		st := "(*stack.linkAddrEntry).state($0.cache[$1]#0)"
+		c.CheckSites(t2, fn, []SiteSpec{
+			{Kind: "call", Target: cs, Args: []string{"phi{$0.cache[$1]#0 | (*stack.linkAddrCache).makeAndAddEntry($0, $1, $2)}", "1"}, Guards: []string{}, Exact: true, N: 1, Why: "to ready: for the cached entry (only on the state == incomplete path, see the stores) or a freshly made, incomplete one"},
+			{Kind: "store", Target: "stack.linkAddrEntry.linkAddr", Args: []string{"$0.cache[$1]#0", "$2"}, Guards: []string{"$0.cache[$1]#1", "(" + st + " == 0)"}, Exact: true, N: 1, Why: "an incomplete entry takes the learned address in place"},
+			{Kind: "call", Target: "(*stack.linkAddrCache).makeAndAddEntry", Args: []string{"$0", "$1", "$2"}, Guards: []string{"!(" + st + " == 0)", "$0.cache[$1]#1"}, Exact: true, N: 1, Why: "ready with another address / failed / expired: a new slot (overwrite with the new link address)"},
+			{Kind: "call", Target: "(*stack.linkAddrCache).makeAndAddEntry", Args: []string{"$0", "$1", "$2"}, Guards: []string{"!$0.cache[$1]#1"}, Exact: true, N: 1, Why: "unknown neighbour: a new slot"},
+			{Kind: "return", Guards: []string{"!(" + st + " == 3)", "$0.cache[$1]#1", "($0.cache[$1]#0.linkAddr == $2)"}, Exact: true, N: 1, Why: "same mapping, not expired: nothing to do (expiry is not refreshed)"},
+			{Kind: "return", Guards: []string{}, Exact: true, N: 1, Why: "end"},
+		})
+		// the phi's cache operand flows in only from the state == incomplete block
+		for _, ci := range c.Calls(fn, Is(cs), false) {
+			if phi, ok := ci.Common().Args[0].(*ssa.Phi); ok {
+				for i, e := range phi.Edges {
+					if _, isCall := e.(*ssa.Call); isCall {
+						continue
+					}
+					pred := phi.Block().Preds[i]
+					ok := GuardedBy(fn, pred, AtomIs(true, Exactly("("+st+" == 0)")))
+					c.Check(ok, t2, FuncName(fn)+"/ready-from-cached-only-if-incomplete", c.pos(ci), "the cached entry reaches changeState(ready) only from the incomplete arm", "a cached entry that is not incomplete can reach changeState(ready): invalid transition (panic) or a stale entry revived")
+				}
+			} else {
+				c.Broken(t2, FuncName(fn)+"/ready-from-cached-only-if-incomplete", "receiver is not a phi any more")
+			}
+		}
 	}
 }
